@@ -1,6 +1,7 @@
 """C12 - stubs are valid Python and mirror the traced functions' real signatures."""
 import ast
 import importlib
+import sys
 import inspect
 
 from hypothesis import given, strategies as st
@@ -27,7 +28,39 @@ def check_module(ctx, funcs, strat, k, sc, pid="C12", c13=None, via_rows=False, 
     src = sigsynth.render(funcs, annotate_receiver=strat == EAS.OMIT)
     for f_ in funcs:
         f_.pop('_annotate_receiver', None)
-    name, path = sc.new_module(src, stem="mtv_sig")
+    if (len(funcs) + k) % 2 == 1:
+        # every other case re-executes ONE module name with new source (a reloading server, a notebook, a test session that
+        # re-imports): an earlier version of the module, in which the class-level functions had another kind (`K.fn0` was a
+        # class method a moment ago and is a method now), is traced and stubbed first under the very same name
+        import copy
+        import os
+        import shutil
+        name = f"mtv_sigsame{sc.tag}"
+        path = os.path.join(sc.dir, name + ".py")
+        rot = {"method": "classmethod", "classmethod": "staticmethod", "staticmethod": "method", "asyncmethod": "staticmethod",
+               "genmethod": "classmethod", "subclassmethod": "method", "substaticmethod": "classmethod"}
+        before = copy.deepcopy(funcs)
+        for f_ in before:
+            f_["where"] = rot.get(f_["where"], f_["where"])
+            f_["is_traced"] = True
+        for text_ in (sigsynth.render(before, annotate_receiver=False), src):
+            with open(path, "w") as fh:
+                fh.write(text_)
+            shutil.rmtree(os.path.join(sc.dir, "__pycache__"), ignore_errors=True)
+            importlib.invalidate_caches()
+            if text_ is not src:
+                try:
+                    mod0 = importlib.import_module(name)
+                    traces0, _ = sigsynth.traces_for(mod0, before, k)
+                    build_module_stubs_from_traces(traces0, k, strat, rewriter=rewriter)[name].render()
+                except Exception:
+                    pass
+                sys.modules.pop(name, None)
+        for f_ in before:
+            f_.pop('_annotate_receiver', None)
+        ctx.label("module-name-re-executed")
+    else:
+        name, path = sc.new_module(src, stem="mtv_sig")
     spec = ["SIG", funcs, strat.name, k] + (["via-rows"] if via_rows else []) + (["rewriter:default"] if rewriter is not None else [])
     try:
         try:
